@@ -279,6 +279,8 @@ func checkC13(w *World, r *Report) {
 	checkR13_2(w, r, kt)
 	checkR13_3(w, r, kt)
 	checkPassSeesParserTokens(w, r)
+	checkKindsComparedForEquality(w, r)
+	checkKindSetsWideEnough(w, r)
 }
 
 func exprArgs(c *ast.CallExpr) string {
@@ -1192,4 +1194,139 @@ func checkPassSeesParserTokens(w *World, r *Report) {
 		})
 	}
 	r.Counts["successful returns of tokenizers whose tokens a pass rewrites"] = n
+}
+
+// checkKindsComparedForEquality — R13.5: token kinds are names, not magnitudes.  No ordered
+// comparison (<, <=, >, >=) has a Token.Type value as an operand: the dashed delimiter kinds were
+// added to the kind enumeration after EOF, so "Type >= TOKEN_EOF" and the like treat `-%}` / `{%-`
+// differently from `%}` / `{%`.
+func checkKindsComparedForEquality(w *World, r *Report) {
+	n := 0
+	isKind := func(v ssa.Value) bool {
+		for _, o := range originChain(v) {
+			if _, ok := fieldLoad(o, "Token", "Type"); ok {
+				return true
+			}
+		}
+		return false
+	}
+	for _, fn := range w.pkgFuncs() {
+		instrsOf(fn, func(in ssa.Instruction) {
+			bo, ok := in.(*ssa.BinOp)
+			if !ok {
+				return
+			}
+			if !isKind(bo.X) && !isKind(bo.Y) {
+				return
+			}
+			n++
+			switch bo.Op {
+			case token.LSS, token.LEQ, token.GTR, token.GEQ:
+				r.bad("R13.5", ssaName(fn), "token kind in an ordered comparison", w.posOf(bo.Pos()), "a token's kind is compared by magnitude: the whitespace-trimming delimiter kinds sit elsewhere in the enumeration than their plain partners, so the test takes a tag with a dash differently from the same tag without it")
+			}
+		})
+	}
+	r.ok("R13.5", "(package)", "token kinds are only compared for equality", "-", fmt.Sprintf("%d comparisons with a Token.Type operand examined", n), true)
+	r.floor("comparisons with a Token.Type operand", n, 20)
+}
+
+// checkKindSetsWideEnough — R13.6: a set of token kinds kept as bits has a bit for every kind.
+// For every shift whose count is (converted from) a parameter, an element of a variadic
+// parameter or a constant: every constant that reaches the count from the package's call sites
+// is smaller than the width of the shifted integer.  TOKEN_BLOCK_END_TRIM is kind 16: in a
+// uint16 set the dashed closing delimiter is silently never a member.
+func checkKindSetsWideEnough(w *World, r *Report) {
+	n := 0
+	width := func(t types.Type) int64 {
+		b, ok := t.Underlying().(*types.Basic)
+		if !ok {
+			return 0
+		}
+		switch b.Kind() {
+		case types.Int8, types.Uint8:
+			return 8
+		case types.Int16, types.Uint16:
+			return 16
+		case types.Int32, types.Uint32:
+			return 32
+		case types.Int64, types.Uint64, types.Int, types.Uint, types.Uintptr:
+			return 64
+		}
+		return 0
+	}
+	var consts func(v ssa.Value, seen map[ssa.Value]bool, d int, out *[]int64)
+	consts = func(v ssa.Value, seen map[ssa.Value]bool, d int, out *[]int64) {
+		v = unspill(v)
+		if seen[v] || d > 6 {
+			return
+		}
+		seen[v] = true
+		switch x := v.(type) {
+		case *ssa.Const:
+			if x.Value != nil && x.Value.Kind() == constant.Int {
+				*out = append(*out, x.Int64())
+			}
+		case *ssa.Convert:
+			consts(x.X, seen, d, out)
+		case *ssa.ChangeType:
+			consts(x.X, seen, d, out)
+		case *ssa.Phi:
+			for _, e := range x.Edges {
+				consts(e, seen, d, out)
+			}
+		case *ssa.Parameter:
+			if vals, ok := callerValues(x, -1); ok {
+				for _, cv := range vals {
+					consts(cv.val, seen, d+1, out)
+				}
+			}
+		case *ssa.UnOp:
+			// element of a (variadic) slice parameter
+			if ia, ok := x.X.(*ssa.IndexAddr); ok {
+				if p, ok := unspill(ia.X).(*ssa.Parameter); ok {
+					if vals, ok := callerValues(p, -1); ok {
+						for _, cv := range vals {
+							for _, e := range variadicElems(cv.val) {
+								consts(e, seen, d+1, out)
+							}
+						}
+					}
+				}
+			}
+		}
+	}
+	for _, fn := range w.pkgFuncs() {
+		instrsOf(fn, func(in ssa.Instruction) {
+			bo, ok := in.(*ssa.BinOp)
+			if !ok || bo.Op != token.SHL {
+				return
+			}
+			wd := width(bo.Type())
+			if wd == 0 {
+				return
+			}
+			if _, isC := bo.Y.(*ssa.Const); isC {
+				return // the compiler rejects constant overflow itself
+			}
+			var cs []int64
+			consts(bo.Y, map[ssa.Value]bool{}, 0, &cs)
+			if len(cs) == 0 {
+				return
+			}
+			n++
+			var worst int64 = -1
+			for _, c := range cs {
+				if c >= wd && c > worst {
+					worst = c
+				}
+			}
+			construct := fmt.Sprintf("shift count fits the %d-bit operand", wd)
+			if worst >= 0 {
+				r.bad("R13.6", ssaName(fn), construct, w.posOf(bo.Pos()), fmt.Sprintf("the count can be %d (a constant handed in by a call site), which shifts every bit out of the %d-bit value: the member with that number — a dashed delimiter kind — is never in the set, so tags written with a dash are rejected where the same tag without it is accepted", worst, wd))
+			} else {
+				r.ok("R13.6", ssaName(fn), construct, w.posOf(bo.Pos()), fmt.Sprintf("constants reaching the count: %v", cs), true)
+			}
+		})
+	}
+	r.Counts["shifts by a count that receives constants from call sites"] = n
 }
